@@ -28,7 +28,7 @@ type LoopContract struct {
 type FuncContract struct {
 	Name     string
 	Clauses  []*Clause
-	Modifies []string // heap patterns; nil = not declared (defaults to nothing)
+	Modifies []ModEntry // heap patterns; nil = not declared (defaults to nothing)
 	Loops    map[int]*LoopContract
 	Inline   bool
 	Trusted  string // non-empty: body not verified, reason
@@ -36,6 +36,13 @@ type FuncContract struct {
 	Line     int
 	Lemma    bool
 	Options  map[string]bool
+}
+
+// ModEntry is one entry of a modifies clause: a heap pattern, optionally restricted to the object
+// denoted by At ("modifies []*Task at tasks": only the backing array of tasks).
+type ModEntry struct {
+	Pat string
+	At  *Expr
 }
 
 type SpecFunc struct {
@@ -88,7 +95,7 @@ func (fc *FuncContract) clauses(kind string) []*Clause {
 var clauseKeywords = map[string]bool{
 	"requires": true, "ensures": true, "invariant": true, "step": true, "decreases": true,
 	"modifies": true, "func": true, "spec": true, "loop": true, "inline": true, "trusted": true,
-	"ufun": true, "ghost": true, "option": true, "axiom": true, "lemma": true, "pure": true, "assume": true, "end": true,
+	"ufun": true, "ghost": true, "option": true, "canary": true, "axiom": true, "lemma": true, "pure": true, "assume": true, "end": true,
 }
 
 // parseContractFile reads //@ lines.
@@ -155,7 +162,7 @@ func parseContractFile(path string) (*ContractFile, error) {
 			}
 			curLoop = &LoopContract{Ordinal: ord, Hint: hint}
 			curFunc.Loops[ord] = curLoop
-		case "requires", "ensures", "invariant", "step", "decreases", "assume":
+		case "requires", "ensures", "invariant", "step", "decreases", "assume", "canary":
 			label, text := "", rest
 			if strings.HasPrefix(rest, "[") {
 				end := strings.Index(rest, "]")
@@ -190,13 +197,22 @@ func parseContractFile(path string) (*ContractFile, error) {
 				return nil, fmt.Errorf("line %d: modifies outside func", it.line)
 			}
 			if curFunc.Modifies == nil {
-				curFunc.Modifies = []string{}
+				curFunc.Modifies = []ModEntry{}
 			}
-			for _, p := range strings.Split(rest, ",") {
+			for _, p := range splitTopLevel(rest, ',') {
 				p = strings.TrimSpace(p)
-				if p != "" && p != "nothing" {
-					curFunc.Modifies = append(curFunc.Modifies, p)
+				if p == "" || p == "nothing" {
+					continue
 				}
+				me := ModEntry{Pat: p}
+				if idx := strings.Index(p, " at "); idx > 0 {
+					ex, err := parseExpr(strings.TrimSpace(p[idx+4:]))
+					if err != nil {
+						return nil, fmt.Errorf("line %d: %v", it.line, err)
+					}
+					me = ModEntry{Pat: strings.TrimSpace(p[:idx]), At: ex}
+				}
+				curFunc.Modifies = append(curFunc.Modifies, me)
 			}
 		case "inline":
 			if curFunc == nil {
